@@ -317,6 +317,7 @@ static int decrunch_mmcmp(HIO_HANDLE *in, void **out, long *outlen)
 	uint32 *table;
 	uint32 i, j;
 	uint32 total_unpk = 0;
+	uint32 total_sub = 0;
 
 	/* Read file header */
 	if (hio_read32l(in) != 0x4352697A)		/* ziRC */
@@ -403,6 +404,14 @@ static int decrunch_mmcmp(HIO_HANDLE *in, void **out, long *outlen)
 				}
 			}
 		}
+
+		/* Every sub-block descriptor takes 8 bytes of the file and is
+		 * read once: all blocks together can't have more of them than
+		 * the file has room for. (Empty sub-blocks don't use up the
+		 * output budget below, and block table entries may repeat.) */
+		if ((uint32)block.sub_blk > (uint32)(hio_size(in) / 8) - total_sub)
+			goto err2;
+		total_sub += block.sub_blk;
 
 		sub_block = (struct sub_block *) malloc(block.sub_blk * sizeof (struct sub_block));
 		if (sub_block == NULL)
